@@ -502,5 +502,8 @@ def check(run):
     run.floor('replace overloads', replace(run, m, F, E, L), 4)
     tokenize(run, m, F, E, L)
     run.floor('members scanned for NUL-stopping primitives', nul_blind(run, m, F), 8)
+    # R09.7: a tokenize that tests its units against a folded representation of the delimiter set (expected count zero on this tree)
+    from . import setrep
+    run.counts['unit-set predicates under tokenize'] = setrep.check_members(run, 'R09.7', m, F, E, r'^ST::string::tokenize\(char const\*\) const$', 'tokenize')
     for o in run.obs[:6]:
         run.sample(dict(rule=o['rule'], subject=o['subject'], case=o['disc'], verdict=o['verdict'], detail=o['detail'][:160]))
